@@ -25,7 +25,8 @@
 #define LC_OPEN     256
 #define LC_SOCKOPT  512	/* setsockopt */
 #define LC_SOERR    1024	/* getsockopt(SO_ERROR): outcome of a non-blocking connect */
-#define LC_NCLASS   11
+#define LC_READ     2048	/* fread of a file the library opened (credentials) */
+#define LC_NCLASS   12
 
 struct ls_ev {
     const char *call;
